@@ -212,7 +212,6 @@ impl InterfaceInner {
 
         if !self.has_ip_addr(ipv6_repr.dst_addr)
             && !self.has_multicast_group(ipv6_repr.dst_addr)
-            && !ipv6_repr.dst_addr.is_loopback()
         {
             if !ipv6_repr.dst_addr.x_is_unicast() {
                 net_trace!(
